@@ -21,13 +21,13 @@ theorem c_noarb_after_start_safe :
 
 theorem safe_spelled (cfg : Config) (s : St) (h : CancellableAfter.safe cfg s = true) :
     s.bad = 0 ∧ s.completions ≤ 1 ∧ s.tcTrue ≤ 1 ∧ s.hookRuns ≤ 1 ∧ s.nestedStarts ≤ 1 ∧
-    s.startAfterHook = false ∧ (s.doneWins = 0 ∨ s.hookRuns = 1) ∧
+    s.startAfterHook = false ∧ s.hookLate = false ∧ (s.doneWins = 0 ∨ s.hookRuns = 1) ∧
     (((CancellableAfter.sys cfg).next s).isEmpty = true → final cfg s = true) ∧
     (final cfg s = true → s.completions = 1 ∧ s.freed = true) := by
   unfold CancellableAfter.safe at h
   simp only [Bool.and_eq_true, decide_eq_true_eq, Bool.or_eq_true, Bool.not_eq_true'] at h
-  obtain ⟨⟨⟨⟨⟨⟨⟨⟨h0, h1⟩, h2⟩, h3⟩, h4⟩, h5⟩, h6⟩, h7⟩, h8⟩ := h
-  refine ⟨h0, h1, h2, h3, h4, h5, h6, ?_, ?_⟩
+  obtain ⟨⟨⟨⟨⟨⟨⟨⟨⟨h0, h1⟩, h2⟩, h3⟩, h4⟩, h5⟩, hl⟩, h6⟩, h7⟩, h8⟩ := h
+  refine ⟨h0, h1, h2, h3, h4, h5, hl, h6, ?_, ?_⟩
   · intro hd
     rcases h7 with h7 | h7
     · simp [hd] at h7
@@ -41,6 +41,12 @@ theorem safe_spelled (cfg : Config) (s : St) (h : CancellableAfter.safe cfg s = 
 theorem c_after_start_no_touch_one_winner :
     ∀ s, Reach (CancellableAfter.sys cfgAfterStart) s →
       s.bad = 0 ∧ s.completions ≤ 1 ∧ (final cfgAfterStart s = true → s.completions = 1 ∧ s.freed = true) :=
-  fun s h => let r := safe_spelled _ s (c_after_start_safe s h); ⟨r.1, r.2.1, r.2.2.2.2.2.2.2.2⟩
+  fun s h => let r := safe_spelled _ s (c_after_start_safe s h); ⟨r.1, r.2.1, r.2.2.2.2.2.2.2.2.2⟩
+
+/-- the stop callback's arbitration: when completion (T1) and stop request (T2) race after start() has
+    returned, the hook is never called for an operation whose completion has been claimed -/
+theorem c_after_start_hook_only_unclaimed :
+    ∀ s, Reach (CancellableAfter.sys cfgAfterStart) s → s.hookLate = false ∧ s.hookRuns ≤ 1 :=
+  fun s h => let r := safe_spelled _ s (c_after_start_safe s h); ⟨r.2.2.2.2.2.2.1, r.2.2.2.1⟩
 
 end Unifex.Props.C19.After
